@@ -12,6 +12,43 @@ import os
 _state = {"evaluations": 0, "failures": [], "files_seen": 0}
 
 
+import re
+
+_NUM = re.compile(r"(?:(?<![\w.])|(?<=\.\.))(0[xX][0-9a-fA-F_]+|0[oO][0-7_]+|0[bB][01_]+|\d[\d_]*\.?[\d_]*(?:[eE][+-]?\d+)?|\.\d+)")
+_PLACEHOLDERS = {"arrow_function", "function_expression", "anonymous", "UnnamedClass"}
+
+
+def _num(t):
+    t = t.replace("_", "")
+    try:
+        return float(int(t, 0)) if re.match(r"0[xXoObB]", t) else float(t)
+    except ValueError:
+        return None
+
+
+def _construct_missing(rule, msg, text):
+    """The part of C12's construct-on-line oracle that needs no generator ground truth (returns a reason or None)."""
+    fam = rule.split(".")[0]
+    if fam == "nesting":
+        m = re.search(r"Function '([^']+)' has excessive nesting depth", msg)
+        if m and m.group(1) not in _PLACEHOLDERS and m.group(1) not in text:
+            return "function name not on the line"
+    elif fam in ("srp", "stateless-class"):
+        m = re.search(r"Class '([^']+)'", msg)
+        if m and m.group(1) not in _PLACEHOLDERS and m.group(1) not in text:
+            return "class name not on the line"
+    elif fam == "magic-numbers":
+        m = re.match(r"Magic number (\S+) should be", msg)
+        val = _num(m.group(1)) if m else None
+        if val is not None and not any(_num(t) is not None and abs(_num(t)) == abs(val) for t in _NUM.findall(text)):
+            return "literal not on the line"
+    elif fam == "unwrap-abuse" and not (".unwrap" in text or ".expect" in text):
+        return "call not on the line"
+    elif fam == "clone-abuse" and ".clone" not in text:
+        return "call not on the line"
+    return None
+
+
 def _install():
     import icontract
 
@@ -39,6 +76,11 @@ def _install():
                 _state["failures"].append(["line", v.rule_id, vp, v.line, len(lines)])
             elif v.column < 0 or v.column > len(lines[v.line - 1]) + 1:
                 _state["failures"].append(["column", v.rule_id, vp, v.line, v.column, len(lines[v.line - 1])])
+            else:
+                why = _construct_missing(str(v.rule_id), str(v.message), lines[v.line - 1].decode("utf-8", "replace"))
+                _state["construct_checked"] = _state.get("construct_checked", 0) + 1
+                if why:
+                    _state["failures"].append(["construct", v.rule_id, vp, v.line, why, lines[v.line - 1].decode("utf-8", "replace")[:120], str(v.message)[:120]])
         return True
 
     core.Orchestrator.lint_file = icontract.ensure(locations_ok, error=LocationContractBroken)(core.Orchestrator.lint_file)
@@ -52,5 +94,5 @@ def pytest_sessionfinish(session, exitstatus):
     out = os.environ.get("VERIF_SUITE_MON")
     if out:
         with open(out, "w", encoding="utf-8") as f:
-            json.dump({"contract_evaluations": _state["evaluations"], "files_seen": _state["files_seen"], "failures": _state["failures"][:200],
+            json.dump({"contract_evaluations": _state["evaluations"], "files_seen": _state["files_seen"], "failures": _state["failures"][:200], "construct_checked": _state.get("construct_checked", 0),
                        "n_failures": len(_state["failures"])}, f)
